@@ -5,7 +5,7 @@ LEVEL = "model_checking"
 MODULES = fmfile.modules()
 prepare = fblock.prepare
 BOUNDS = {
-    "quick": {"block_types": "all registered (from Factory.cpp)", "version": "symbolic (file,user,stream) under the loader's acceptance predicate", "count_cap_B": 1, "input_bytes_L": 256, "budget_s_per_type": 8},
+    "quick": {"block_types": "all registered (from Factory.cpp)", "version": "symbolic (file,user,stream) under the loader's acceptance predicate", "count_cap_B": 1, "input_bytes_L": 256, "budget_s_per_type": 12},
     "thorough": {"block_types": "all registered", "version": "symbolic, split into 3 version classes", "count_cap_B": 2, "input_bytes_L": 512, "budget_s_per_type": 120},
 }
 ASSUMPTIONS = [
@@ -30,7 +30,7 @@ def owns_violation(v):
 
 def jobs(tier, seed):
     J = fblock.jobs_for("h_roundtrip", tier, seed)
-    J += fblock.jobs_for("h_strings", tier, seed, budget_quick=4, budget_thorough=45)
+    J += fblock.jobs_for("h_strings", tier, seed, budget_quick=6, budget_thorough=45)
     for j in J:
         j["mod"] = "fblock"
     J += fmfile.jobs("h_file_fixedpoint", tier, sympos=True)
